@@ -1129,6 +1129,13 @@ class RpcServer:
         # the outer one handles streaming errors.  Only one access log fires per call.
         try:
             result: Stream[StreamState, Any] = getattr(self._impl, info.name)(**kwargs)
+            # A malformed return value is an initialization error like any
+            # other: report it as one instead of letting it escape the serve
+            # loop after the client has been promised a response.
+            if not isinstance(result, Stream):
+                raise TypeError(f"Method '{info.name}' must return a Stream, got {type(result).__name__}")
+            if info.header_type is not None and result.header is None:
+                raise TypeError(f"Method '{info.name}' declares header type but returned header=None")
         except Exception as exc:
             _hook_exc = exc
             status = "error"
